@@ -6,6 +6,7 @@
 package main
 
 import (
+	"context"
 	"crypto/sha256"
 	"encoding/json"
 	"fmt"
@@ -188,11 +189,16 @@ func coordinate(prop, tier string) int {
 				next++
 				mu.Unlock()
 				out := filepath.Join(tmp, fmt.Sprintf("j%d.json", i))
-				cmd := exec.Command(self, "worker", prop, tier, strconv.Itoa(i), "0", out)
+				// workers stop themselves at the deadline; one that is still running three minutes later is stuck
+				// (an endless loop in the harness or in godi): it is killed and reported as a machinery error
+				hard, cancelHard := context.WithDeadline(context.Background(), deadline.Add(3*time.Minute))
+				cmd := exec.CommandContext(hard, self, "worker", prop, tier, strconv.Itoa(i), "0", out)
 				cmd.Stderr = os.Stderr
 				cmd.Stdout = os.Stderr
 				cmd.Env = append(os.Environ(), "GOMAXPROCS=1", fmt.Sprintf("MC_DEADLINE_UNIX=%d", deadline.Unix()))
 				err := cmd.Run()
+				stuck := hard.Err() != nil
+				cancelHard()
 				mu.Lock()
 				if b, rerr := os.ReadFile(out); rerr == nil {
 					var rep mc.Report
@@ -208,7 +214,14 @@ func coordinate(prop, tier string) int {
 					if ee, ok := err.(*exec.ExitError); ok {
 						code = ee.ExitCode()
 					}
-					if code == 42 || code == 43 {
+					if stuck {
+						machErr = true
+						total.MachErr = append(total.MachErr, fmt.Sprintf("worker for job %s was still running 3 minutes after the deadline and was killed", job))
+					} else if _, exited := err.(*exec.ExitError); !exited {
+						// the worker never ran (fork/exec failed, binary removed, ...): the machinery's problem, not godi's
+						machErr = true
+						total.MachErr = append(total.MachErr, fmt.Sprintf("worker could not be started for job %s: %v", job, err))
+					} else if code == 42 || code == 43 {
 						machErr = true
 						total.MachErr = append(total.MachErr, fmt.Sprintf("worker exited %d in job %s", code, job))
 					} else {
